@@ -65,7 +65,14 @@ package types
 //@   ensures result != nil && big(result) == blockdiff(b) && fresh(result)
 //@   assigns nothing
 
+// A header copy has the same commitments and scalar fields; its big integers are private copies.
 //@ func CopyHeader
+//@   requires[C01] h != nil
+//@   ensures[C01] @same result != nil && fresh(result) && result.ParentHash == h.ParentHash && result.UncleHash == h.UncleHash && result.Root == h.Root
+//@     && result.TxHash == h.TxHash && result.ReceiptHash == h.ReceiptHash && result.Bloom == h.Bloom && result.GasUsed == h.GasUsed && result.GasLimit == h.GasLimit
+//@     && result.Version == h.Version && result.Nonce == h.Nonce && result.MixDigest == h.MixDigest && result.Coinbase == h.Coinbase
+//@   ensures[C01] @bigs result.Number != nil && result.Difficulty != nil && result.Time != nil && (h.Number != nil ==> big(result.Number) == big(h.Number))
+//@     && (h.Difficulty != nil ==> big(result.Difficulty) == big(h.Difficulty)) && (h.Time != nil ==> big(result.Time) == big(h.Time))
 //@   keeps big
 
 // ---- header hashing (C14) ------------------------------------------------------------------------
@@ -118,4 +125,26 @@ package types
 //@   ensures typeis(topic, "common.Address") ==> result == bloomhasaddr(bin, unbox(topic, "common.Address"))
 //@   ensures typeis(topic, "common.Hash") ==> result == bloomhashash(bin, unbox(topic, "common.Hash"))
 //@   ensures typeis(topic, "*big.Int") ==> result == bloomhasbig(bin, big(unbox(topic, "*big.Int")))
+//@   assigns nothing
+
+// ---- recomputed commitments as observers (C01) ---------------------------------------------------
+// Trusted: the bloom of a receipt list, the trie root of a derivable list, the uncle hash and the
+// list of uncles of a block are functions of their arguments (their contents are not written
+// between the calls that use them); none of them writes anything a contract mentions.
+//@ func CreateBloom
+//@   trusted
+//@   ensures result == createbloomf(receipts)
+//@   assigns nothing
+//@ func DeriveSha
+//@   trusted
+//@   ensures typeis(list, "types.Receipts") ==> result == derivesha_receipts(unbox(list, "types.Receipts"))
+//@   ensures typeis(list, "types.Transactions") ==> result == derivesha_txs(unbox(list, "types.Transactions"))
+//@   assigns nothing
+//@ func CalcUncleHash
+//@   trusted
+//@   ensures result == unclehashf(uncles)
+//@   assigns nothing
+//@ func Block.Uncles
+//@   trusted
+//@   ensures result == blockuncles(b)
 //@   assigns nothing
